@@ -365,7 +365,7 @@ func ruleP12Group(p *Prog, r *Report) {
 				// visited at most once: a MapUpdate seen[hash]=true dominates, guarded by !seen[hash]
 				once := false
 				for _, g := range guardsOf(vc.where()) {
-					if lk2, ok := g.Cond.(*ssa.Lookup); ok && !g.Pol && sameValue(lk2.Index, lk.Index) {
+					if lk2 := membershipTest(g.Cond); lk2 != nil && !g.Pol && sameValue(lk2.Index, lk.Index) {
 						eachInstr(run, func(in ssa.Instruction) {
 							if mu, ok := in.(*ssa.MapUpdate); ok && sameValue(mu.Map, lk2.X) && sameValue(mu.Key, lk.Index) && mu.Block().Dominates(vc.where()) {
 								if b, isB := constBool(mu.Value); isB && b {
@@ -732,4 +732,20 @@ func instrIndex(in ssa.Instruction) int {
 		}
 	}
 	return -1
+}
+
+// membershipTest: cond reads a map[K]bool used as a set — m[k], or the ok (or the value) of
+// `v, ok := m[k]`.  With only `true` ever stored these are the same test.
+func membershipTest(cond ssa.Value) *ssa.Lookup {
+	switch x := cond.(type) {
+	case *ssa.Lookup:
+		if !x.CommaOk {
+			return x
+		}
+	case *ssa.Extract:
+		if lk, ok := x.Tuple.(*ssa.Lookup); ok && lk.CommaOk {
+			return lk
+		}
+	}
+	return nil
 }
